@@ -41,5 +41,5 @@ for pid, names in QUICK.items():
         if k.tier == "quick" and (names is None or short in names):
             k2.tier = "quick"
         else:
-            k2.tier = "thorough"
+            k2.tier = "deep"
         KERNELS.append(k2)
